@@ -114,6 +114,11 @@ class Env:
         if t is None or t.done():
             return False
         self.log("cancel")
+        # side channel for the oracle (not a model observable): was a cancel request issued by a cancel scope of the
+        # race still outstanding on the task (cancelling() > 0) when the caller's cancellation arrived?
+        pend = t.cancelling()
+        if pend:
+            self.log(f"pendingscope {pend}")
         t.cancel()
         return True
 
